@@ -18,8 +18,10 @@
      smooth                               smooth_all  (right fold = the reversed loop)
      Cache.calculate_likelihood etc.      likelihood, contributions (as repaired by fixes/C03_1.patch:
                                           the contributions carry the variance scale)
-   Not modelled: the GLS estimate of an unknown initial condition (unit-root models, Xi is None for
-   stationary models), the `check_singularity` option, multiple variants. *)
+     predict (Xi), estimate_unknown_init, correct_for_unknown_init
+                                          xi_run, estimate_unknown_init, correct_for_unknown_init
+   Not modelled: the `check_singularity` option, multiple variants, the least-squares solution of a
+   rank-deficient GLS system (numpy lstsq; the model uses the inverse). *)
 From Coq Require Import List Bool Arith.
 From Verif Require Import lib.MatOps.
 Import ListNotations.
@@ -187,6 +189,48 @@ Definition smooth_all (fs : list fper) : list sper := fst (smooth_back fs).
 Definition update_all (fs : list fper) : list sper :=
   map (fun x => mkSper x (fst (one_step_back x None))) fs.
 
+(* ---- unknown initial condition (unit roots, diffuse_method="fixed_unknown") ---- *)
+
+(* predict, `if needs_estimate_unknown_init`: Xi_t, the effect of the unknown part of the initial state on the
+   predicted state of period t;  Xi_0 = T Xi_init,  Xi_t = (T - T G_{t-1} Z_{t-1}) Xi_{t-1} *)
+Fixpoint xi_run {k : nat} (Xi_prev : mx n k) (prev : option fper) (fs : list fper) : list (mx n k) :=
+  match fs with
+  | [] => []
+  | x :: fs' =>
+      let T := p_T (fp x) in
+      let Xi := match prev with
+                | None => T *m Xi_prev
+                | Some y => (T -m (T *m f_G (ff y)) *m p_Z (fp y)) *m Xi_prev
+                end in
+      Xi :: xi_run Xi (Some x) fs'
+  end.
+
+Definition sum_mx {a b : nat} (l : list (mx a b)) : mx a b := fold_left (fun acc X => acc +m X) l (mzero M a b).
+
+(* estimate_unknown_init: GLS normal equations sum M'F^-1 M delta = sum M'F^-1 pe with M_t = Z_t Xi_t
+   (numpy.linalg.lstsq is modelled by the inverse: identified case; the 1e-12 clipping of the normal matrix is
+   not modelled) *)
+Definition estimate_unknown_init {k : nat} (fs : list fper) (Xis : list (mx n k)) : mx k 1 :=
+  let terms := map2 (fun x Xi => let Mt := p_Z (fp x) *m Xi in let Mt_Fi := Mt^T *m f_Fi (ff x) in
+                                 (Mt_Fi *m Mt, Mt_Fi *m f_pe (ff x))) fs Xis in
+  let S := symmetrize (sum_mx (map fst terms)) in
+  minv M S *m sum_mx (map snd terms).
+
+(* correct_for_unknown_init: a0 += Xi delta, y0 += M delta, pe -= M delta (the updated mean, which the code
+   recomputes from a0 and pe when it needs it, follows) *)
+Definition correct_step {k : nat} (delta : mx k 1) (x : fper) (Xi : mx n k) : fper :=
+  let p := fp x in let f := ff x in
+  let M_delta := (p_Z p *m Xi) *m delta in
+  let a0 := f_a0 f +m Xi *m delta in
+  let pe := f_pe f -m M_delta in
+  mkFper p (mkFrec p a0 (f_Q0 f) (f_y0 f +m M_delta) (f_F f) (f_Fi f) (f_Zt_Fi f) (f_G f) (f_Q1 f) pe
+                   (a0 +m f_G f *m pe) (f_P_cov_u f) (f_H_cov_w f)).
+
+Definition correct_for_unknown_init {k : nat} (Xi_init : mx n k) (fs : list fper) : list fper :=
+  let Xis := xi_run Xi_init None fs in
+  let delta := estimate_unknown_init fs Xis in
+  map2 (correct_step delta) fs Xis.
+
 (* ---- likelihood ---- *)
 
 Definition pe_Fi_pe (x : fper) : sc := m11 M (((f_pe (ff x))^T *m f_Fi (ff x)) *m f_pe (ff x)).
@@ -239,7 +283,7 @@ Definition contributions (var_scale : sc) (fs : list fper) : list (lg M) := map 
 
 (* ---- the system of a Simultaneous model, selection of the observed rows, output mapping ---- *)
 
-Variables nu nyf nxi : nat.
+Variables nu nyf nxi nur : nat.
 
 Record solution : Type := mkSolution {
   so_Ta : mx n n; so_Pa : mx n nu; so_Ka : mx n 1;
@@ -313,24 +357,37 @@ Definition out_period (s : solution) (vs : sc) (up sm : sper) : pout :=
          (col_entries (xi_med s (s_a (so sm)))) (col_entries (s_u (so sm))) (col_entries (s_w (so sm)))
          (rescale vs (xi_var s (s_Q (so sm)))).
 
-(* kalman_filter for one variant of a stationary model (no unknown initial condition) *)
+(* kalman_filter for one parameter variant; [unknown_init] is the third component of initializers.initialize
+   (None for a model without unit roots, the loading of the unknown initial unit-root states otherwise) *)
 Definition kalman_filter (deviation rescale_variance : bool) (s : solution)
-    (init_med : mx n 1) (init_mse : mx n n) (data : list pdata) : kout :=
+    (init_med : mx n 1) (init_mse : mx n n) (unknown_init : option (mx n nur)) (data : list pdata) : kout :=
   let s' := if deviation then deviation_solution s else s in
-  let fs := kf_run init_med init_mse (map (gen_period s') data) in
+  let fs0 := kf_run init_med init_mse (map (gen_period s') data) in
+  let fs := match unknown_init with Some Xi_init => correct_for_unknown_init Xi_init fs0 | None => fs0 end in
   let ups := update_all fs in
   let sms := smooth_all fs in
   let lk := likelihood rescale_variance fs in
   mkKout (map2 (out_period s' (l_var_scale lk)) ups sms) lk (contributions (l_var_scale lk) fs)
          (map det_Fi fs) (map pe_Fi_pe fs).
 
-(* _initialize_med: (I - Ta)^-1 Ka for a model without unit roots *)
-Definition initialize_med (s : solution) : mx n 1 := minv M (mid M n -m so_Ta s) *m so_Ka s.
-(* contract of solve_discrete_lyapunov as used by get_cov_alpha_00: residual of C = Ta C Ta' + Pa cov_u Pa' *)
-Definition lyapunov_residual (s : solution) (cov_u : mx nu nu) (C : mx n n) : mx n n :=
-  C -m (((so_Ta s *m C) *m (so_Ta s)^T) +m ((so_Pa s *m cov_u) *m (so_Pa s)^T)).
-
 End Kalman.
+
+Section Initial.
+Variable M : MatOps.
+Local Notation "A *m B" := (mmul M A B) (at level 40, left associativity).
+Local Notation "A +m B" := (madd M A B) (at level 50, left associativity).
+Local Notation "A -m B" := (msub M A B) (at level 50, left associativity).
+Local Notation "A ^T" := (mtr M A) (at level 30, format "A ^T").
+Variables ns nu : nat.
+(* _initialize_med on the stable block: (I - Ta_stable)^-1 Ka_stable (the unit-root block is zero) *)
+Definition initialize_med_stable (Ta_s : mx M ns ns) (Ka_s : mx M ns 1) : mx M ns 1 :=
+  minv M (mid M ns -m Ta_s) *m Ka_s.
+(* contract of solve_discrete_lyapunov as used by get_cov_alpha_00 on the stable block: the residual of
+   C = Ta_s C Ta_s' + Pa_s cov_u Pa_s' *)
+Definition lyapunov_residual (Ta_s : mx M ns ns) (Pa_s : mx M ns nu) (cov_u : mx M nu nu) (C : mx M ns ns)
+  : mx M ns ns :=
+  C -m (((Ta_s *m C) *m Ta_s^T) +m ((Pa_s *m cov_u) *m Pa_s^T)).
+End Initial.
 
 (* implicit arguments: the carrier and the dimensions are inferred from the matrices *)
 Arguments symmetrize {M k} X.
@@ -441,6 +498,11 @@ Arguments k_contributions {M} k.
 Arguments k_det_Fi {M} k.
 Arguments k_pe_Fi_pe {M} k.
 Arguments out_period {M n nw nu nyf nxi} s vs up sm.
-Arguments kalman_filter {M n nw nu nyf nxi} deviation rescale_variance s init_med init_mse data.
-Arguments initialize_med {M n nw nu nyf nxi} s.
-Arguments lyapunov_residual {M n nw nu nyf nxi} s cov_u C.
+Arguments kalman_filter {M n nw nu nyf nxi nur} deviation rescale_variance s init_med init_mse unknown_init data.
+Arguments initialize_med_stable {M ns} Ta_s Ka_s.
+Arguments lyapunov_residual {M ns nu} Ta_s Pa_s cov_u C.
+Arguments xi_run {M n nw k} Xi_prev prev fs.
+Arguments sum_mx {M a b} l.
+Arguments estimate_unknown_init {M n nw k} fs Xis.
+Arguments correct_step {M n nw k} delta x Xi.
+Arguments correct_for_unknown_init {M n nw k} Xi_init fs.
